@@ -522,7 +522,7 @@ func TotalPlan(tier string) *harness.Plan {
 		Rule:   "Pattern strings: every string of at most L symbols over the 20-symbol pattern alphabet (and L-1 over 28 symbols with multi-character escapes) is offered to Compile/CompilePOSIX (must return); each one that compiles runs EVERY exported search, enumeration, replace, split, expand and reader method plus the Engine *At entry points (also with offsets beyond the end) on every haystack of the shared set, each haystack placed once flush against an inaccessible page above and once below it in read-only memory (strings are unsafe.String views of the same bytes); one symbol longer strings are compile-checked. Seeds: the same on per-seed token haystacks and stride embeddings, plus the size ladder 255..16385 (thorough: ..131073), climbed only while a search still takes < 0.4 s (super-linear search time is C05). Monitors: no panic / fault / watchdog expiry, haystack bytes unchanged, 0<=start<=end<=len, capture pairs both -1 or ordered inside the match, enumerations ordered and non-overlapping and terminating, returned slices alias the input at the reported offsets. states = candidate strings and placements; transitions = method calls; non-trivial = strings that compile.",
 		Level:  "model_checking",
 		Bounds: map[string]any{"string_len_20_symbols": l20, "string_len_28_symbols": l28, "strings_searched": len(strs), "strings_compile_only": nCompileOnly, "shared_haystacks": len(hs), "seeds": len(seeds), "size_ladder": sizes},
-		Budget: map[bool]time.Duration{false: 150 * time.Second, true: 40 * time.Minute}[thorough],
+		Budget: map[bool]time.Duration{false: 150 * time.Second, true: 25 * time.Minute}[thorough],
 		Assume: []string{"out-of-bounds reads are detected only when they cross into the guard page the slice is flush against", "hangs are detected by the per-unit watchdog (600 s for units that normally take seconds), the only wall-clock judgement of the framework", "negative start offsets are outside the API contract and not explored"},
 	}
 }
